@@ -1,7 +1,340 @@
-/- Driver glue for C15: case lines `c15.<sub> <args…> | <impl…>` (stub until the property is built) -/
-import FileD.Prelude.Tok
-namespace FileD.DrvC15
+/-
+  Driver glue for C15. Case lines (tokens; trees in JTree prefix form, bytes hex):
 
-def handle (_cmd : String) (_args _impl : List String) : Option (String × String) := none
+    c15.join <negate> <max> <startRe> <contRe> <npath> <key>… <n> item…
+        item = T <tag> | E <tag> <startOK> <contOK> <tree>
+    c15.jt <max> <ntpl> (<name> <negate>)… <npath> <key>… <n> item…
+        item = T <tag> | E <tag> <starts: ntpl bits> <conts: ntpl bits> <tree>
+    result (both) = call… <end>
+        call = R <res> <nprop> (<tag> <tree>)… (N | E <tag> <tree>)
+        end  = ok | panic:<kind>
+
+    c15.k8s <split> <max> <cutOff> <cutField|-> <n> item…
+        item = T <tag> | E <tag> <size> <A|N|S> <frag> <raw JSON text of the value|->
+    result = (R <res> (N 0 | L <escaped log> <cut>) <exceeded>)… (ok | panic:<kind> | fatal)
+
+    c15.pipe <nprocs> <negate> <max> <startRe> <contRe> <nstreams> (<src> <name> <n> item…)…
+        item = P | E <id> <startOK> <contOK> <tree>
+    result = <ncalls> call… <nstreams> (<nout> <tree>…)… (ok | stuck)
+        call = <instance> (T <tag> | E <id>) R <res> <nprop> (<tag> <tree>)… (N | E <tag> <tree>)
+    (a real pipeline run: calls of all join instances in one global order, then what arrived at
+     the output per stream; tag = index of the stream in the case)
+
+  The regular expressions (`c15.join`) and template names (`c15.jt`) are for the harness only:
+  the model sees the oracle bits the harness computed with them.
+-/
+import FileD.Prelude.Tok
+import FileD.Model.Join
+import FileD.Spec.C15
+import FileD.Model.K8sMultiline
+import FileD.Spec.C15K8s
+namespace FileD.DrvC15
+open FileD Tok FileD.Join
+
+abbrev P (α : Type) := List String → Option (α × List String)
+
+def pNat : P Nat | t :: r => (nat? t).map (·, r) | [] => none
+def pBool : P Bool | t :: r => (bool? t).map (·, r) | [] => none
+def pBytes : P Bytes | t :: r => (bytes? t).map (·, r) | [] => none
+def pTree : P JTree := JTree.parse?
+
+def pMany {α} (p : P α) : Nat → P (List α)
+  | 0, ts => some ([], ts)
+  | n+1, ts => do
+    let (x, r) ← p ts
+    let (xs, r') ← pMany p n r
+    pure (x :: xs, r')
+
+def pCounted {α} (p : P α) : P (List α) := fun ts => do
+  let (n, r) ← pNat ts
+  pMany p n r
+
+def pItem : P In
+  | "T" :: r => do
+    let (t, r) ← pNat r
+    pure (.timeout t, r)
+  | "E" :: r => do
+    let (t, r) ← pNat r
+    let (s, r) ← pBool r
+    let (c, r) ← pBool r
+    let (tr, r) ← pTree r
+    pure (.ev ⟨t, tr, s, c⟩, r)
+  | _ => none
+
+def pTItem (ntpl : Nat) : P TIn
+  | "T" :: r => do
+    let (t, r) ← pNat r
+    pure (.timeout t, r)
+  | "E" :: r => do
+    let (t, r) ← pNat r
+    let (ss, r) ← pMany pBool ntpl r
+    let (cs, r) ← pMany pBool ntpl r
+    let (tr, r) ← pTree r
+    pure (.ev ⟨t, tr, ss, cs⟩, r)
+  | _ => none
+
+def pOEv : P OEv := fun ts => do
+  let (t, r) ← pNat ts
+  let (tr, r) ← pTree r
+  pure (⟨t, tr⟩, r)
+
+def pRes : P Res
+  | "pass" :: r => some (.pass, r)
+  | "collapse" :: r => some (.collapse, r)
+  | "discard" :: r => some (.discard, r)
+  | "hold" :: r => some (.hold, r)
+  | "break" :: r => some (.brk, r)
+  | _ => none
+
+def pOut : P Out
+  | "R" :: r => do
+    let (res, r) ← pRes r
+    let (ps, r) ← pCounted pOEv r
+    match r with
+    | "N" :: r => pure (⟨res, ps, none⟩, r)
+    | "E" :: r => do
+      let (o, r) ← pOEv r
+      pure (⟨res, ps, some o⟩, r)
+    | _ => none
+  | _ => none
+
+/-- the implementation's calls up to the end marker; `panicked` = the marker is not `ok` -/
+def pImpl : Nat → List String → Option (List Out × Bool)
+  | _, ["ok"] => some ([], false)
+  | _, [t] => if t.startsWith "panic:" then some ([], true) else none
+  | 0, _ => none
+  | fuel+1, ts => do
+    let (o, r) ← pOut ts
+    let (os, p) ← pImpl fuel r
+    pure (o :: os, p)
+
+def encOEv (o : OEv) : String := unwords [toString o.tag, o.root.enc]
+
+def encOut (o : Out) : String :=
+  unwords (["R", o.res.tok, toString o.prop.length] ++ o.prop.map encOEv ++
+    [match o.self with | none => "N" | some s => "E " ++ encOEv s])
+
+def encTrace (outs : List Out) (fin : GoM α) : String :=
+  unwords (outs.map encOut ++ [match fin with | .ok _ => "ok" | .error p => panicTok p])
+
+/-! ### k8s -/
+
+def pKItem : P K8s.In
+  | "T" :: r => do
+    let (t, r) ← pNat r
+    pure (.timeout t, r)
+  | "E" :: r => do
+    let (t, r) ← pNat r
+    let (sz, r) ← pNat r
+    match r with
+    | kind :: r => do
+      let (frag, r) ← pBytes r
+      match r with
+      | _raw :: r =>
+        match kind with
+        | "A" => pure (.ev ⟨t, sz, .absent⟩, r)
+        | "N" => pure (.ev ⟨t, sz, .nonString⟩, r)
+        | "S" => pure (.ev ⟨t, sz, .str frag⟩, r)
+        | _ => none
+      | [] => none
+    | [] => none
+  | _ => none
+
+def pKOut : P K8s.Out
+  | "R" :: r => do
+    let (res, r) ← pRes r
+    match r with
+    | "N" :: _ :: r => do
+      let (ex, r) ← pBool r
+      pure (⟨res, none, false, ex⟩, r)
+    | "L" :: r => do
+      let (l, r) ← pBytes r
+      let (cut, r) ← pBool r
+      let (ex, r) ← pBool r
+      pure (⟨res, some l, cut, ex⟩, r)
+    | _ => none
+  | _ => none
+
+/-- calls up to the end marker; `ended` = the marker is not `ok` (panic or process exit) -/
+def pKImpl : Nat → List String → Option (List K8s.Out × Bool)
+  | _, ["ok"] => some ([], false)
+  | _, [t] => if t.startsWith "panic:" || t == "fatal" then some ([], true) else none
+  | 0, _ => none
+  | fuel+1, ts => do
+    let (o, r) ← pKOut ts
+    let (os, p) ← pKImpl fuel r
+    pure (o :: os, p)
+
+def encKOut (o : K8s.Out) : String :=
+  unwords (["R", o.res.tok] ++
+    (match o.log with
+     | none => ["N", "0"]
+     | some l => ["L", Hex.enc l, ofBool o.cut]) ++ [ofBool o.exceeded])
+
+/-! ### real-pipeline traces -/
+
+/-- the events of the case: id ↦ event (tag = stream index) -/
+def pPipeItem (tag : Nat) : P (Option (Nat × Ev))
+  | "P" :: r => some (none, r)
+  | "E" :: r => do
+    let (id, r) ← pNat r
+    let (s, r) ← pBool r
+    let (c, r) ← pBool r
+    let (tr, r) ← pTree r
+    pure (some (id, ⟨tag, tr, s, c⟩), r)
+  | _ => none
+
+def pPipeStreams : Nat → Nat → P (List (List (Nat × Ev)))
+  | 0, _, ts => some ([], ts)
+  | n+1, tag, ts => do
+    let (_, r) ← pNat ts
+    let (_, r) ← pBytes r
+    let (items, r) ← pCounted (pPipeItem tag) r
+    let (rest, r) ← pPipeStreams n (tag + 1) r
+    pure (items.filterMap id :: rest, r)
+
+structure PCall where
+  inst : Nat
+  inp  : In
+  id   : Option Nat
+  out  : Out
+
+def lookupEv (evs : List (Nat × Ev)) (id : Nat) : Option Ev :=
+  (evs.find? (·.1 == id)).map (·.2)
+
+def pPCall (evs : List (Nat × Ev)) : P PCall := fun ts => do
+  let (inst, r) ← pNat ts
+  match r with
+  | "T" :: r => do
+    let (t, r) ← pNat r
+    let (o, r) ← pOut r
+    pure (⟨inst, .timeout t, none, o⟩, r)
+  | "E" :: r => do
+    let (id, r) ← pNat r
+    let e ← lookupEv evs id
+    let (o, r) ← pOut r
+    pure (⟨inst, .ev e, some id, o⟩, r)
+  | _ => none
+
+def pTrees : P (List JTree) := pCounted pTree
+
+def encIn (c : PCall) : String :=
+  match c.inp, c.id with
+  | .timeout t, _ => s!"T {t}"
+  | .ev _, some id => s!"E {id}"
+  | .ev _, none => "E ?"
+
+/-- replay the calls in their global order, one join state per instance -/
+def replay (cfg : Cfg) : List (Nat × St) → List PCall → List String × Bool
+  | _, [] => ([], true)
+  | sts, c :: r =>
+    let st := ((sts.find? (·.1 == c.inst)).map (·.2)).getD St.init
+    match step cfg st c.inp with
+    | .error p => ([toString c.inst, encIn c, panicTok p], false)
+    | .ok (st', o) =>
+      let (rest, ok) := replay cfg ((c.inst, st') :: sts.filter (·.1 != c.inst)) r
+      (toString c.inst :: encIn c :: encOut o :: rest, ok)
+
+def treesEq : List JTree → List JTree → Bool
+  | [], [] => true
+  | a :: as, b :: bs => a.toToks == b.toToks && treesEq as bs
+  | _, _ => false
+
+def instances (calls : List PCall) : List Nat := (calls.map (·.inst)).eraseDups
+
+def streamIds (calls : List PCall) (tag : Nat) : List Nat :=
+  calls.filterMap (fun c => if SpecC15.tagOf c.inp == tag then c.id else none)
+
+def handle (cmd : String) (args impl : List String) : Option (String × String) :=
+  match cmd with
+  | "c15.join" => do
+    let (neg, r) ← pBool args
+    let (max, r) ← pNat r
+    let (_, r) ← pBytes r
+    let (_, r) ← pBytes r
+    let (path, r) ← pCounted pBytes r
+    let (items, r) ← pCounted pItem r
+    if r ≠ [] then none
+    let cfg : Cfg := ⟨path, max, neg⟩
+    let t := run cfg St.init items
+    let m := encTrace t.outs t.fin
+    let p := match pImpl (impl.length + 1) impl with
+      | some (outs, panicked) => if SpecC15.holds cfg items outs panicked then "ok" else "fail"
+      | none => "bad-impl"
+    pure (m, p)
+  | "c15.jt" => do
+    let (max, r) ← pNat args
+    let (ntpl, r) ← pNat r
+    let (tpls, r) ← pMany (fun ts => do
+        let (_, r) ← pBytes ts
+        let (n, r) ← pBool r
+        pure (n, r)) ntpl r
+    let (path, r) ← pCounted pBytes r
+    let (items, r) ← pCounted (pTItem ntpl) r
+    if r ≠ [] then none
+    let tcfg : TCfg := ⟨path, max, tpls⟩
+    let t := trun tcfg TSt.init items
+    let m := encTrace t.outs t.fin
+    let p := match pImpl (impl.length + 1) impl with
+      | some (outs, panicked) =>
+        if SpecC15.holds tcfg.join (SpecC15.resolve tcfg (-1) items) outs panicked then "ok" else "fail"
+      | none => "bad-impl"
+    pure (m, p)
+  | "c15.k8s" => do
+    let (split, r) ← pNat args
+    let (max, r) ← pNat r
+    let (cutOff, r) ← pBool r
+    let (field, r) ← pBytes r
+    let (items, r) ← pCounted pKItem r
+    if r ≠ [] then none
+    let cfg : K8s.Cfg := ⟨(split : Nat), max, cutOff, !field.isEmpty⟩
+    let t := K8s.run cfg K8s.St.init items
+    let m := unwords (t.outs.map encKOut ++ [match t.fin with | .ok _ => "ok" | .error p => panicTok p])
+    let p := match pKImpl (impl.length + 1) impl with
+      | some (outs, ended) =>
+        if !SpecC15K8s.holds cfg items outs ended then "fail"
+        else if max == 0 && SpecC15K8s.contentOut outs ++ (SpecC15K8s.finalLine cfg SpecC15K8s.Line.empty items).content
+            != SpecC15K8s.contentIn items then "loss"
+        else "ok"
+      | none => "bad-impl"
+    pure (m, p)
+  | "c15.pipe" => do
+    let (_, r) ← pNat args
+    let (neg, r) ← pBool r
+    let (max, r) ← pNat r
+    let (_, r) ← pBytes r
+    let (_, r) ← pBytes r
+    let (ns, r) ← pNat r
+    let (streams, r) ← pPipeStreams ns 0 r
+    if r ≠ [] then none
+    let cfg : Cfg := ⟨[str "log"], max, neg⟩
+    let evs := streams.flatten
+    let (calls, r) ← pCounted (pPCall evs) impl
+    let (nso, r) ← pNat r
+    let (outs, r) ← pMany pTrees nso r
+    -- `stuck`: the run did not come to rest in time (e.g. a run was never closed)
+    let fin ← match r with
+      | ["ok"] => some "ok"
+      | ["stuck"] => some "stuck"
+      | _ => none
+    -- model: every instance replayed through Join.step; outputs per stream from the spec
+    let (toks, ok) := replay cfg [] calls
+    let tags := List.range ns
+    let perStream := tags.map (fun t => calls.filterMap (fun c => if SpecC15.tagOf c.inp == t then some c.inp else none))
+    let specOuts := perStream.map (fun items => (SpecC15.spec cfg items).map (·.root))
+    let m := if ok then
+        unwords ([toString calls.length] ++ toks ++ [toString ns] ++
+          specOuts.map (fun o => unwords (toString o.length :: o.map JTree.enc)) ++ [fin])
+      else unwords ([toString calls.length] ++ toks)
+    -- property oracle on the observed trace
+    let views := (instances calls).map (fun i => (calls.filter (·.inst == i)).map (·.inp))
+    let hyps := views.all (fun v => SpecC15.coherent cfg none v && SpecC15.timely cfg false v)
+    let order := (tags.zip streams).all (fun (t, evs) => streamIds calls t == evs.map (·.1))
+    let outsOK := nso == ns && (outs.zip specOuts).all (fun (a, b) => treesEq a b)
+    let p := if !hyps then "fail:hypothesis" else if !order then "fail:order"
+             else if fin != "ok" then "fail:stuck"
+             else if !outsOK then "fail:output" else "ok"
+    pure (m, p)
+  | _ => none
 
 end FileD.DrvC15
